@@ -126,6 +126,19 @@ class ProbeSet:
         if subject is not None:
             subject.sid = pid
         self.probes.append(Probe(pid, prop, cls, expect, subject, **kw))
+        # "never compiles" must not rest on a feature's generated code tripping over the declaration: the same
+        # out-of-domain declaration with no feature at all, and with features that never name a variant
+        if (prop == "C12" and expect == "reject" and subject is not None and "source_override" not in kw
+                and not cls.endswith((":nofeat", ":light"))):
+            import copy
+            for tag, feats in (("nofeat", None), ("light", [("try_from", {}), ("TryFrom", {}), ("iter", {}), ("names", {}), ("next", {}), ("next_back", {})])):
+                t = copy.deepcopy(subject)
+                ets = [a for a in t.attrs if a.kind == "et"]
+                if not ets:
+                    continue
+                rest = [a for a in t.attrs if a.kind != "et"]
+                t.attrs = rest + (C.cfg_attrs(feats) if feats else [])
+                self.add(prop, f"{cls}:{tag}", expect, t, **kw)
 
     # ---- C10: documented combinations compile, nothing but Copy required
     def fam_c10(self):
